@@ -158,7 +158,7 @@ def gen_sources():
     os.makedirs(gen, exist_ok=True)
     write_if_changed(os.path.join(gen, 'stacks_gen.cpp'), pool.stacks_cpp())
     for s in pool.STACKS:
-        for g in ('core', 'io', 'thr'):
+        for g in ('core', 'io', 'thr', 'dmp'):
             write_if_changed(os.path.join(gen, '%s.%s.cpp' % (s.id, g)), pool.tu_source(g, s))
     for d, s in pool.conv_pairs():
         write_if_changed(os.path.join(gen, '%s.conv.%s.cpp' % (d.id, s.id)), pool.tu_source('conv', d, s))
